@@ -7,6 +7,7 @@ import (
 
 	"github.com/go-shiori/dom"
 	distiller "github.com/markusmobius/go-domdistiller"
+	"golang.org/x/net/html"
 )
 
 // C16 — pagination links are real, same-site, fetchable URLs.
@@ -62,8 +63,27 @@ func asciiEqualFold(a, b string) bool {
 }
 
 func anchorSet(docSrc string, page *nurl.URL) map[string]bool {
+	return anchorSetOf(parseHTML(docSrc), page)
+}
+
+// subRoots lists the elements below <body> that hold at least one anchor: each
+// of them is a document Apply may be given (the root need not be the whole page).
+func subRoots(doc *html.Node) []*html.Node {
+	var out []*html.Node
+	for _, e := range dom.GetElementsByTagName(doc, "*") {
+		switch e.Data {
+		case "html", "head", "body", "a":
+			continue
+		}
+		if len(dom.GetElementsByTagName(e, "a")) > 0 {
+			out = append(out, e)
+		}
+	}
+	return out
+}
+
+func anchorSetOf(doc *html.Node, page *nurl.URL) map[string]bool {
 	set := map[string]bool{}
-	doc := parseHTML(docSrc)
 	for _, a := range dom.GetElementsByTagName(doc, "a") {
 		h := strings.Trim(dom.GetAttribute(a, "href"), " \t\n\f\r") // as HTML does for URL attributes
 		ref, err := nurl.Parse(escapeForParse(h))
@@ -75,7 +95,7 @@ func anchorSet(docSrc string, page *nurl.URL) map[string]bool {
 	return set
 }
 
-func (c *Ctx) checkPaginationLink(which, v string, algo distiller.PaginationAlgo, page *nurl.URL, anchors map[string]bool, wit func(extra map[string]any) map[string]any) bool {
+func (c *Ctx) checkPaginationLink(which, where, v string, algo distiller.PaginationAlgo, page *nurl.URL, anchors map[string]bool, wit func(extra map[string]any) map[string]any) bool {
 	if v == "" {
 		return true
 	}
@@ -100,7 +120,7 @@ func (c *Ctx) checkPaginationLink(which, v string, algo distiller.PaginationAlgo
 	if kind == "" {
 		return true
 	}
-	c.Violation(fmt.Sprintf("%s:algo%d:%s", kind, algo, which), fmt.Sprintf("%sPage=%q (algorithm %d, page URL %s): %s", which, v, algo, page, kind),
+	c.Violation(fmt.Sprintf("%s:algo%d:%s%s", kind, algo, which, where), fmt.Sprintf("%sPage=%q (algorithm %d, page URL %s%s): %s", which, v, algo, page, where, kind),
 		wit(map[string]any{"which": which, "value": v, "algorithm": int(algo), "kind": kind}))
 	return false
 }
@@ -117,14 +137,40 @@ func runC16(c *Ctx, idx int) {
 		}
 		return w
 	}
+	// one case in four hands Apply an element of the page instead of the page:
+	// then only the anchors below that element are "present in the document"
+	subRoot, where := -1, ""
+	if idx%4 == 3 {
+		if roots := subRoots(parseHTML(pg.HTML)); len(roots) > 0 {
+			subRoot = r.Intn(len(roots))
+			root := roots[subRoot]
+			anchors = anchorSetOf(root, page)
+			extra := map[string]any{"root": "element " + fmt.Sprint(subRoot) + " of those below <body> that hold an anchor (document order): " + trunc(outer(root), 300)}
+			inner := wit
+			wit = func(e map[string]any) map[string]any {
+				w := inner(e)
+				for k, v := range extra {
+					w[k] = v
+				}
+				return w
+			}
+			where = ":element-root"
+			c.Inc("element_root_cases")
+		}
+	}
 	c.SetInput(func() any { return wit(nil) })
 	for _, algo := range []distiller.PaginationAlgo{distiller.PrevNext, distiller.PageNumber} {
-		cr := c.applyVariant(pg.HTML, &distiller.Options{OriginalURL: page, PaginationAlgo: algo}, idx)
+		var cr callResult
+		if subRoot >= 0 {
+			cr = c.apply(subRoots(parseHTML(pg.HTML))[subRoot], &distiller.Options{OriginalURL: page, PaginationAlgo: algo})
+		} else {
+			cr = c.applyVariant(pg.HTML, &distiller.Options{OriginalURL: page, PaginationAlgo: algo}, idx)
+		}
 		if !c.usable(cr) {
 			continue
 		}
 		pi := cr.Res.PaginationInfo
-		if !c.checkPaginationLink("Next", pi.NextPage, algo, page, anchors, wit) || !c.checkPaginationLink("Prev", pi.PrevPage, algo, page, anchors, wit) {
+		if !c.checkPaginationLink("Next", where, pi.NextPage, algo, page, anchors, wit) || !c.checkPaginationLink("Prev", where, pi.PrevPage, algo, page, anchors, wit) {
 			return
 		}
 		if pi.NextPage != "" || pi.PrevPage != "" {
